@@ -119,6 +119,7 @@ type frame struct {
 }
 
 type FuncVC struct {
+	probed   map[string]bool
 	epochCtr int
 	G             *Gen
 	Fn            *ssa.Function
@@ -295,7 +296,7 @@ func (f *FuncVC) freshConst(prefix, sort string) string {
 }
 
 func (f *FuncVC) oblig(kind string, st *State, goal string, pos token.Pos, detail string) *Obligation {
-	if f.C != nil && f.C.Opts["kinds"] != "" && kind != "reach" && kind != "split.cover" && !strings.HasPrefix(kind, "loop") && kind != "assert" {
+	if f.C != nil && f.C.Opts["kinds"] != "" && !strings.HasPrefix(kind, "reach") && kind != "split.cover" && !strings.HasPrefix(kind, "loop") && kind != "assert" {
 		// this contract claims only some kinds of obligations for the function (stated in the evidence)
 		ok := false
 		for _, k := range strings.Split(f.C.Opts["kinds"], ",") {
@@ -452,7 +453,10 @@ func (f *FuncVC) typeInv(st *State, v Val, t types.Type) string {
 			v.T, implies("(not (= (s.arr "+v.T+") 0))", "(select "+f.heapGet(st, "alloc", "(Array Int Bool)")+" (s.arr "+v.T+"))"))
 	case KRef:
 		if _, ok := t.Underlying().(*types.Pointer); ok {
-			return "(or (= " + v.T + " 0) (and (> " + v.T + " 0) (select " + f.heapGet(st, "alloc", "(Array Int Bool)") + " " + v.T + ")) (< " + v.T + " 0))"
+			al := f.heapGet(st, "alloc", "(Array Int Bool)")
+			// negative references address an element object inside an array (eltref, one level deep: nesting is outside
+			// the subset, see IndexAddr): the base is a positive, allocated reference
+			return "(or (= " + v.T + " 0) (and (> " + v.T + " 0) (select " + al + " " + v.T + ")) (and (< " + v.T + " 0) (> (eltref.arr " + v.T + ") 0) (select " + al + " (eltref.arr " + v.T + "))))"
 		}
 	case KStruct:
 		s, ok := t.Underlying().(*types.Struct)
@@ -530,19 +534,19 @@ func (f *FuncVC) load(st *State, l *Loc) Val {
 		k, w := kindOfType(l.Typ)
 		arr := f.heapGet(st, l.Key, fieldArraySort(k, w))
 		v := Val{K: k, W: w, Typ: l.Typ, T: "(select " + arr + " " + l.Ref + ")"}
-		return f.namedLoad(st, v, l.Typ, l.Key)
+		return f.namedLoad(st, v, l.Typ, l.Key, l.Ref)
 	case LHeapCell:
 		k, w := kindOfType(l.Typ)
 		key := "C." + sortKey(k, w)
 		arr := f.heapGet(st, key, fieldArraySort(k, w))
 		v := Val{K: k, W: w, Typ: l.Typ, T: "(select " + arr + " " + l.Ref + ")"}
-		return f.namedLoad(st, v, l.Typ, key)
+		return f.namedLoad(st, v, l.Typ, key, l.Ref)
 	case LElem:
 		k, w := kindOfType(l.Typ)
 		key := "E." + sortKey(k, w)
 		arr := f.heapGet(st, key, elemArraySort(k, w))
 		v := Val{K: k, W: w, Typ: l.Typ, T: "(select (select " + arr + " " + l.Ref + ") " + l.Idx + ")"}
-		return f.namedLoad(st, v, l.Typ, key)
+		return f.namedLoad(st, v, l.Typ, key, l.Ref)
 	case LObj:
 		s := l.Typ.Underlying().(*types.Struct)
 		v := Val{K: KStruct, Typ: l.Typ}
@@ -577,7 +581,7 @@ func (f *FuncVC) load(st *State, l *Loc) Val {
 	return Val{K: KBad}
 }
 
-func (f *FuncVC) namedLoad(st *State, v Val, t types.Type, hint string) Val {
+func (f *FuncVC) namedLoad(st *State, v Val, t types.Type, hint string, ref string) Val {
 	switch v.K {
 	case KInt, KSlice, KRef:
 		if f.noDefine {
@@ -589,13 +593,17 @@ func (f *FuncVC) namedLoad(st *State, v Val, t types.Type, hint string) Val {
 		}
 		raw := v.T
 		v.T = f.define("ld."+hint, sortOf(v.K, v.W), v.T)
-		ist := st
-		if cur, ok := st.heap[hint]; ok && cur == hint+"@0" && f.entryState != nil && f.entryState.heap["alloc"] != "" {
-			// read from a heap component that is still at its entry version: the entry heap references only
-			// objects that were allocated at entry (stronger than "allocated now"; allocation only grows)
-			ist = &State{heap: map[string]string{"alloc": f.entryState.heap["alloc"]}}
+		f.assume(f.typeInv(st, v, t))
+		if cur, ok := st.heap[hint]; ok && cur == hint+"@0" && ref != "" && (v.K == KSlice || v.K == KRef) && f.entryState != nil && f.entryState.heap["alloc"] != "" {
+			// read from a heap component that is still at its entry version, out of an object that existed at entry:
+			// the value is the one the object held at entry, so it references an object allocated at entry (stronger
+			// than "allocated now"). Objects allocated later are constrained on the same heap version (allocation-time
+			// facts), hence the guard on the container.
+			al0 := f.entryState.heap["alloc"]
+			ist := &State{heap: map[string]string{"alloc": al0}}
+			guard := "(or (and (> " + ref + " 0) (select " + al0 + " " + ref + ")) (and (< " + ref + " 0) (> (eltref.arr " + ref + ") 0) (select " + al0 + " (eltref.arr " + ref + "))))"
+			f.assume(implies(guard, f.typeInv(ist, v, t)))
 		}
-		f.assume(f.typeInv(ist, v, t))
 		if v.T != raw {
 			f.loadCache[raw] = cacheEnt{v.T, len(f.cmds)}
 		}
@@ -976,4 +984,24 @@ func (f *FuncVC) allEqual(a string, k Kind, w int, z string) string {
 		return "(forall ((k Int)) (! (= (select " + a + " k) " + z + ") :pattern ((select " + a + " k))))"
 	}
 	return "(= " + a + " ((as const (Array Int " + sortOf(k, w) + ")) " + constLit(z) + "))"
+}
+
+// reachProbe adds a vacuity probe: the program point must be reachable under everything assumed so far (preconditions,
+// invariants, callee postconditions). `unsat` means the region is dead under the contracts: either genuinely dead code
+// (listed in baseline/dead_code.json after review) or contradictory assumptions, i.e. vacuous proofs behind it.
+func (f *FuncVC) reachProbe(kind string, st *State, pos token.Pos, what string) {
+	if f.C == nil || st.reach == "true" || st.reach == "false" {
+		return
+	}
+	if f.probed == nil {
+		f.probed = map[string]bool{}
+	}
+	key := fmt.Sprintf("%s@%d", st.reach, len(f.cmds)/8)
+	if f.probed[key] {
+		return
+	}
+	f.probed[key] = true
+	o := f.oblig(kind, &State{reach: "true"}, st.reach, pos, "vacuity probe: "+what+" (must be satisfiable)")
+	o.goal = st.reach
+	o.expectSat = true
 }
